@@ -225,10 +225,15 @@ def uniqueSorted : List α → List α
   | [a] => [a]
   | a :: b :: l => if a = b then uniqueSorted (b :: l) else a :: uniqueSorted (b :: l)
 
+/-- positions `i ≥ start` (counted from `start`) with `l[i] != l[i+1]` -/
+def spanIndicesFrom : Nat → List α → List Nat
+  | _, [] => []
+  | _, [_] => []
+  | i, a :: b :: l => if a = b then spanIndicesFrom (i + 1) (b :: l) else i :: spanIndicesFrom (i + 1) (b :: l)
+
 /-- `KnotVector.mesh_span_indices`: indices `i` with `kv[i] != kv[i+1]`
-(`k2m[1:] != k2m[:-1]` on the `np.unique` inverse map of a nondecreasing array) -/
-def spanIndices (kv : List α) : List Nat :=
-  (List.range (kv.length - 1)).filter fun i => decide (kv[i]? ≠ kv[i+1]?)
+(`np.where(k2m[1:] != k2m[:-1])[0]` on the `np.unique` inverse map of a nondecreasing array) -/
+def spanIndices (kv : List α) : List Nat := spanIndicesFrom 0 kv
 
 variable [LT α] [DecidableLT α] [LE α] [DecidableLE α]
 
